@@ -443,8 +443,8 @@ class Ssh2Server:
                     c.send(frame2((bytes([1]) + u32(11) + sstr(b'disconnected by application') + sstr(b'')) if ans == 'debug-disconnect' else (bytes([2]) + sstr(b'x' * 20))), ans)   # reason code 11 reads as a plausible length field
                     c.close()
                     return
-                if ans == 'huge':    # a modulus far beyond anything requested (65536 bits still fits comfortably in one packet)
-                    c.send(frame2(gex_group(65536)), 'gex_group_huge')
+                if isinstance(ans, str) and ans.startswith('huge'):    # a modulus far beyond anything requested (65536 bits still fits comfortably in one packet); 'huge:<bits>' picks the size
+                    c.send(frame2(gex_group(int(ans[5:]) if ans[4:5] == ':' else 65536)), 'gex_group_huge')
                     c.wait_eof()
                     return
                 if ans == 'disconnect':
